@@ -340,6 +340,30 @@ func matchRunTable(st *matchState, t matchTable) {
 			}
 		}
 	}
+	// totality with odd method strings: the index is keyed by method + first path segment without a separator, so a method
+	// string that is a proper prefix of a real method, with a path that supplies the missing letters, lands in a real bucket
+	for _, m := range st.hdr.Methods {
+		for _, h := range t.Hits[m] {
+			q, want := h[0], h[1]
+			if want <= 0 || q >= len(st.paths) || len(st.paths[q]) < 2 {
+				continue
+			}
+			for cut := 0; cut < len(m); cut++ {
+				odd, p := m[:cut], "/"+m[cut:]+st.paths[q][1:]
+				var pan any
+				func() {
+					defer func() { pan = recover() }()
+					routers[0].r.Match(odd, p)
+				}()
+				compared++
+				if pan != nil {
+					st.report(map[string]any{"kind": "match", "aspect": "lookup-panic", "table": texts, "method": odd, "path": p, "router": "plain",
+						"what": fmt.Sprintf("Match(%q, %q) on %v panicked: %v", odd, p, texts, pan)}, caseDoc)
+					break
+				}
+			}
+		}
+	}
 	// served pass (C02 observes Context.Params inside handlers): every cell that selects a route is requested through
 	// ServeHTTP, directly and as the target of an internal redirect (Router.HandleContext) issued by the handler of
 	// the previously served cell; the handler of the selected route must see exactly the parameters of ITS match
